@@ -255,5 +255,40 @@ def one_case(ctx, index, rng: random.Random):
              sample={"kind": kind, "bins": [p.tolist()[:3] for p in pairs], "bin_sizes": np.asarray(sizes).ravel()[:4].tolist(), "frequencies": f.ravel()[:4].tolist()})
 
 
+def geometry_problems(h):
+    """The self-description of one histogram: measures, densities, edge / centre / width forms against its contents."""
+    probs = []
+    f = np.asarray(h.frequencies, dtype=float)
+    sizes = np.asarray(h.bin_sizes, dtype=float)
+    if sizes.shape != f.shape:
+        probs.append(f"bin_sizes shape {sizes.shape} != frequencies shape {f.shape}")
+    dens = np.asarray(h.densities, dtype=float)
+    if dens.shape != f.shape or not np.allclose(dens * sizes, f, rtol=1e-12, atol=1e-12):
+        probs.append("densities * bin_sizes != frequencies")
+    if h.ndim == 1:
+        for name in ("bin_left_edges", "bin_right_edges", "bin_centers", "bin_widths"):
+            if np.asarray(getattr(h, name)).shape != f.shape:
+                probs.append(f"{name} shape differs from frequencies")
+        cum = np.asarray(h.cumulative_frequencies, dtype=float)
+        if cum.shape != f.shape or (len(cum) and not math.isclose(float(cum[-1]), float(h.total), rel_tol=1e-12, abs_tol=1e-12)):
+            probs.append("cumulative_frequencies does not end at total")
+    else:
+        for name in ("get_bin_left_edges", "get_bin_right_edges", "get_bin_centers", "get_bin_widths"):
+            for ax, g in enumerate(getattr(h, name)()):
+                if np.asarray(g).shape != f.shape:
+                    probs.append(f"mesh {name}()[{ax}] shape {np.asarray(g).shape} != frequencies shape {f.shape}")
+        if hasattr(h, "total_size") and not math.isclose(float(h.total_size), float(sizes.sum()), rel_tol=1e-9):
+            probs.append("total_size is not the sum of bin_sizes")
+    return probs
+
+
+def detached_case(ctx, index, rng: random.Random):
+    """Geometry vs contents of a histogram are re-inspected after a histogram derived from it (or its source) has grown."""
+    from ..monitors import structure
+
+    structure.detached_workload(ctx, index, rng, prop="C16", monitor="C16.geometry", inspect=geometry_problems)
+
+
 def run(ctx):
     ctx.run_cases(ctx.scale(500, 4000), one_case)
+    ctx.run_cases(ctx.scale(100, 600), detached_case, salt="detached")
